@@ -174,6 +174,8 @@ class Builder:
             return ufl.div(B(r[1]))
         if op in ("dot", "inner", "outer", "cross", "elem_mult", "elem_div", "elem_pow", "elem_op"):
             return getattr(ufl, op)(B(r[1]), B(r[2]))
+        if op == "outerN":  # outer product of three or more operands
+            return ufl.outer(*[B(x) for x in r[1]])
         if op == "dx":
             return B(r[1]).dx(*self.ix(r[2]))
         if op == "Dn":
